@@ -41,7 +41,7 @@ AnyFault == \E i \in DOMAIN P.schema : P.schema[i] # {} \/ \E j \in DOMAIN P.ops
 (* what `generate` writes for a clean project: schema types (+map), one declaration (+map) per operation file and, when *)
 (* configured (P.gen), the resolver types (+map) and the server schema module (no map)                                  *)
 GenOf(p) == IF "gen" \in DOMAIN p THEN p.gen ELSE {}
-OutputsOf(p) == {<<"schemaTypes">>, <<"schemaTypesMap">>} \cup UNION {{<<"opTypes", j>>, <<"opTypesMap", j>>} : j \in DOMAIN p.ops}
+OutputsOf(p) == (IF "noschema" \in GenOf(p) THEN {} ELSE {<<"schemaTypes">>, <<"schemaTypesMap">>}) \cup UNION {{<<"opTypes", j>>, <<"opTypesMap", j>>} : j \in DOMAIN p.ops}
                 \cup (IF "resolvers" \in GenOf(p) THEN {<<"resolvers">>, <<"resolversMap">>} ELSE {})
                 \cup (IF "server" \in GenOf(p) THEN {<<"server">>} ELSE {})
 Outputs == OutputsOf(P)
@@ -82,12 +82,17 @@ RunCheck(thenGenerate) ==
           THEN written' = Outputs /\ listed' = Outputs /\ idx' = idx + 1 /\ UNCHANGED <<P, stage, named, cmdError, exit>>
           ELSE idx' = idx + 1 /\ UNCHANGED <<P, stage, named, cmdError, written, listed, exit>>
 
+(* a configuration that `generate` cannot work with: no schemaOutput (and no schemaModuleSpecifier) although other outputs need to *)
+(* import the schema types.  It is rejected before anything is written; `check` alone does not care.                              *)
+BadGenConfig(p) == "noschema" \in GenOf(p)
 Command ==
   /\ stage = "command"
   /\ IF idx > Len(P.commands) THEN stage' = "output" /\ UNCHANGED <<P, idx, checked, named, cmdError, written, listed, exit>>
      ELSE IF P.commands[idx] = "check" THEN
           (IF checked THEN Fail("unlocated", {}) ELSE RunCheck(FALSE))   \* check after another command is an error
-     ELSE IF ~checked THEN RunCheck(TRUE)                                  \* generate runs check first
+     ELSE IF ~checked THEN
+          (IF CheckOutcome.ok /\ BadGenConfig(P) THEN Fail("unlocated", {}) ELSE RunCheck(TRUE))     \* generate runs check first
+     ELSE IF BadGenConfig(P) THEN Fail("unlocated", {})
      ELSE written' = Outputs /\ listed' = Outputs /\ idx' = idx + 1 /\ UNCHANGED <<P, stage, checked, named, cmdError, exit>>
 
 Output == stage = "output" /\ stage' = "done" /\ UNCHANGED <<P, idx, checked, named, cmdError, written, listed, exit>>
@@ -114,6 +119,7 @@ Expected(p) ==
   ELSE IF XOpsWith(p, "import") # {} THEN fail("import", XOpsWith(p, "import"), TRUE)
   ELSE IF XOpsWith(p, "check") \cup XOpsWith(p, "libcheck") \cup XOpsWith(p, "libvar") # {}
        THEN fail("opsCheck", XOpsWith(p, "check") \cup XOpsWith(p, "libcheck") \cup XOpsWith(p, "libvar"), TRUE)
+  ELSE IF "noschema" \in GenOf(p) /\ p.commands # <<"check">> THEN [exit |-> 1, failing |-> "config", some |-> {}, all |-> TRUE, writes |-> {}]
   ELSE IF p.commands = <<"generate", "check">> THEN [exit |-> 1, failing |-> "misuse", some |-> {}, all |-> TRUE, writes |-> XOutputs(p)]
   ELSE [exit |-> 0, failing |-> "none", some |-> {}, all |-> TRUE,
         writes |-> IF p.commands = <<"check">> THEN {} ELSE XOutputs(p)]
@@ -124,11 +130,11 @@ OutcomeAgrees ==
      /\ named \subseteq x.some /\ (x.some # {} => named # {}) /\ (x.all => named = x.some)
 
 (* C18 *)
-Misuse == P.commands = <<"generate", "check">>
+Misuse == P.commands = <<"generate", "check">> \/ (BadGenConfig(P) /\ P.commands # <<"check">>)
 ExitIffClean       == stage = "done" => (exit = 0 <=> (~AnyFault /\ ~Misuse))
 CheckWritesNothing == (P.commands = <<"check">>) => written = {}
 WrittenIsListed    == written = listed
-NoWriteOnFailure   == (stage = "done" /\ exit = 1 /\ ~Misuse) => written = {}
+NoWriteOnFailure   == (stage = "done" /\ exit = 1 /\ (~Misuse \/ BadGenConfig(P))) => written = {}
 FaultIsLocated     == (stage = "done" /\ exit = 1 /\ ~Misuse) => named # {}
 NamedAreFaulty     == \A f \in named : IF f[1] = "schema" THEN P.schema[f[2]] # {} ELSE P.ops[f[2]] # {}
 GenerateOnlyAfterCleanCheck == written # {} => checked
